@@ -1,5 +1,6 @@
 import os, vf
 from pbase import Base
+import gen_rs2v
 
 
 class Property(Base):
@@ -8,9 +9,13 @@ class Property(Base):
     coq_targets = ["theories/Properties/C10.vo"]
     theorems = []
     trusted_base = Base.COMMON_TB + [
-        "hand-written bit-level model of binary64 (coq/theories/Base/F64.v: decode, exact comparison, trunc, saturating cast, integer->double rounding) and of the macro body (coq/theories/Api/IntDeser.v); tied to the code by the correspondence on ~10^5 patterns x 10 types per run",
+        "translator T8 (translators/rs2v + the textual macro instantiation in translators/gen_rs2v.py): the body of impl_deserialize_for_int! is REGENERATED into Gen/IntDeserGen.v for the ten types it is invoked with; C10_code_number / C10_code_not_a_number prove deser_int (Api/IntDeser.v) equal to it for all patterns",
+        "hand-written bit-level model of binary64 (coq/theories/Base/F64.v: decode, exact comparison f_eq/f_le, f_trunc, the saturating cast f_cast, integer->double rounding of_int) - the meaning of the f64 operations the translated code uses; tied to the hardware by the correspondence on ~10^5 patterns x 10 types per run",
     ]
     assumptions = ["doubles are supplied to <int>::deserialize as MessagePack f64 input through the real reader", "usize/isize are exercised at the host width (64); the 32-bit instances of the theorem are validated only through the u32/i32 cases"]
+
+    def regen(self):
+        return {"T8": gen_rs2v.generate(vf.REPO, "IntDeserGen")}
 
     def property_failure(self, block, I, S, M):
         ops = [l for l in block[1:] if l != "END"]
